@@ -985,6 +985,134 @@ theorem scan_recs (hraw : commentsRaw = true) (rs : List (Rec F × List Nat)) (h
   simp
 
 
+/-! ### the recorded offsets -/
+
+theorem lrec_append (lead : List Nat) (r : Rec F) (rest : Bytes) : lrec lead r rest = lrec lead r [] ++ rest := by
+  simp [lrec]
+
+theorem drop_prefix {α} (A R : List α) (k : Nat) : (A ++ R).drop (A.length + k) = R.drop k := by
+  induction A with
+  | nil => simp
+  | cons a t ih =>
+    have : (a :: t).length + k = (t.length + k) + 1 := by simp; omega
+    rw [this]; simpa using ih
+
+/-- element-wise relation between two lists of the same length -/
+inductive All2 {α β : Type} (R : α → β → Prop) : List α → List β → Prop
+  | nil : All2 R [] []
+  | cons {a b l l'} : R a b → All2 R l l' → All2 R (a :: l) (b :: l')
+
+/-- what is recorded for one record: its offset is at or after `pos`, and from it the file reads as the record (after some layout)
+    followed by the rest -/
+def BeginOf (S : Bytes) (pos : Nat) (off : Nat) (rg : Rec F × List Nat) : Prop :=
+  pos ≤ off ∧ ∃ lead rest, Seps lead ∧ Small lead ∧ S.drop (off - pos) = lrec lead rg.1 rest
+
+theorem all2_shift (A R : Bytes) (pos : Nat) : ∀ (offs : List Nat) (rs : List (Rec F × List Nat)),
+    All2 (BeginOf R (pos + A.length)) offs rs → All2 (BeginOf (A ++ R) pos) offs rs := by
+  intro offs rs h
+  induction h with
+  | nil => exact All2.nil
+  | @cons off rg _ _ hb _ ih =>
+    refine All2.cons ?_ ih
+    obtain ⟨hge, ld, rst, hs1, hs2, hd⟩ := hb
+    refine ⟨by omega, ld, rst, hs1, hs2, ?_⟩
+    have : off - pos = A.length + (off - (pos + A.length)) := by omega
+    rw [this, drop_prefix]
+    exact hd
+
+theorem scanBegins_recs (hraw : commentsRaw = true) (fuel : Nat) (T : Bytes) (hT : nextInstance fuel T = .ok none) :
+    ∀ (rs : List (Rec F × List Nat)), LazyRecs rs → ∀ (lead : List Nat), Seps lead → Small lead →
+      ((pieces lead rs).foldr (fun p x => p.1 x) T).length + 6 ≤ fuel →
+      ∀ (n pos : Nat) (acc : List Nat), rs.length < n →
+        ∃ offs, scanBeginsLoop n fuel pos ((pieces lead rs).foldr (fun p x => p.1 x) T) acc = .ok (acc.reverse ++ offs) ∧
+          All2 (BeginOf ((pieces lead rs).foldr (fun p x => p.1 x) T) pos) offs rs := by
+  intro rs
+  induction rs with
+  | nil =>
+    intro _ lead _ _ _ n pos acc hn
+    obtain ⟨n0, rfl⟩ : ∃ j, n = j + 1 := ⟨n - 1, by simp at hn; omega⟩
+    exact ⟨[], by simp [pieces, scanBeginsLoop, hT], All2.nil⟩
+  | cons rg t ih =>
+    intro hrs lead hlead hls hlen n pos acc hn
+    obtain ⟨r, g⟩ := rg
+    obtain ⟨n0, rfl⟩ : ∃ j, n = j + 1 := ⟨n - 1, by simp at hn; omega⟩
+    obtain ⟨hlex, hlz, hg, hsg⟩ := hrs (r, g) (by simp)
+    simp only [pieces, List.foldr_cons] at hlen ⊢
+    obtain ⟨R, hR⟩ : ∃ R, R = (pieces g t).foldr (fun p x => p.1 x) T := ⟨_, rfl⟩
+    rw [← hR] at hlen ⊢
+    have hnext := nextInstance_lrec hraw lead hlead hls r hlex hlz R fuel hlen
+    have hle : R.length ≤ (lrec lead r R).length := by rw [lrec_length]; omega
+    obtain ⟨offs, h1, h2⟩ := ih (fun x hx => hrs x (List.mem_cons_of_mem _ hx)) g hg hsg (by rw [← hR]; omega) n0
+      (pos + ((lrec lead r R).length - R.length)) (pos :: acc) (by simp at hn; omega)
+    rw [← hR] at h1 h2
+    refine ⟨pos :: offs, ?_, ?_⟩
+    · simp only [scanBeginsLoop, hnext, h1]; simp
+    · refine All2.cons ⟨Nat.le_refl _, lead, R, hlead, hls, by simp⟩ ?_
+      -- the later records: the same suffixes, seen from `pos`
+      have hA : (lrec lead r R).length - R.length = (lrec lead r []).length := by rw [lrec_length lead r R]; omega
+      rw [hA] at h2
+      rw [lrec_append lead r R]
+      exact all2_shift (lrec lead r []) R pos _ _ h2
+
+theorem All2.imp_mem {α β : Type} {R Q : α → β → Prop} : ∀ {l : List α} {l' : List β}, All2 R l l' →
+    (∀ a b, b ∈ l' → R a b → Q a b) → All2 Q l l' := by
+  intro l l' h
+  induction h with
+  | nil => intro _; exact All2.nil
+  | cons hr _ ih =>
+    intro hq
+    exact All2.cons (hq _ _ (by simp) hr) (ih (fun a b hb => hq a b (List.mem_cons_of_mem _ hb)))
+
+theorem All2.length_eq {α β : Type} {R : α → β → Prop} : ∀ {l : List α} {l' : List β}, All2 R l l' → l.length = l'.length := by
+  intro l l' h
+  induction h with
+  | nil => rfl
+  | cons _ _ ih => simp [ih]
+
+/-- the recorded offsets of a whole data section of records: one per record, each at the start of the layout in front of its `#` -/
+theorem scanBegins_file (hraw : commentsRaw = true) (rs : List (Rec F × List Nat)) (hrs : LazyRecs rs)
+    (g0 sp tail : List Nat) (hg0 : Seps g0) (hs0 : Small g0) (hsp : sp.all StepModel.isSpace = true) (hssp : Small sp) :
+    ∃ offs, scanBegins (cs (g0 ++ renderRecs rs (RLemmas.endsec sp tail))) = .ok offs ∧
+      All2 (BeginOf (cs (g0 ++ renderRecs rs (RLemmas.endsec sp tail))) 0) offs rs := by
+  obtain ⟨_, i2, i3, i4⟩ := pieces_next hraw (4 * (cs (g0 ++ renderRecs rs (RLemmas.endsec sp tail))).length + 16) rs hrs g0 hg0 hs0
+  obtain ⟨gT, wT, hgT, hwT, heT⟩ := seps_gap hraw (lastLead g0 rs) i3 i4
+  have hfile := cs_renderRecs (RLemmas.endsec sp tail) rs g0
+  have htailEq : cs (lastLead g0 rs) ++ cs (RLemmas.endsec sp tail) = endsecG gT wT (cs sp) (cs tail) := by
+    rw [heT, gapRender_append, cs_endsec]; rfl
+  rw [htailEq] at hfile
+  have hmono : ∀ (ps : List ((Bytes → Bytes) × Entry)) (x : Bytes), (∀ p ∈ ps, ∀ rest, rest.length ≤ (p.1 rest).length) →
+      x.length ≤ (ps.foldr (fun p y => p.1 y) x).length := by
+    intro ps x
+    induction ps with
+    | nil => intro _; simp
+    | cons p t ih =>
+      intro h
+      have h1 := ih (fun q hq => h q (List.mem_cons_of_mem _ hq))
+      have h2 := h p (by simp) (t.foldr (fun p y => p.1 y) x)
+      simp only [List.foldr_cons]; omega
+  have hcount : ∀ (rs : List (Rec F × List Nat)) (lead : List Nat) (x : Bytes),
+      rs.length ≤ ((pieces lead rs).foldr (fun p y => p.1 y) x).length := by
+    intro rs
+    induction rs with
+    | nil => intro _ _; simp [pieces]
+    | cons rg t ih =>
+      intro lead x
+      obtain ⟨r, g⟩ := rg
+      have := ih g x
+      simp only [pieces, List.foldr_cons, List.length_cons]
+      rw [lrec_length]
+      have : 1 ≤ (lrec lead r []).length := by simp [lrec]; omega
+      omega
+  have hLt := hmono (pieces g0 rs) (endsecG gT wT (cs sp) (cs tail)) i2
+  have hLc := hcount rs g0 (endsecG gT wT (cs sp) (cs tail))
+  unfold scanBegins
+  rw [hfile]
+  have htail := nextInstance_endsecG gT hgT wT (cs sp) (cs tail) hwT
+    (4 * ((pieces g0 rs).foldr (fun p x => p.1 x) (endsecG gT wT (cs sp) (cs tail))).length + 16) (by omega)
+  obtain ⟨offs, h1, h2⟩ := scanBegins_recs hraw _ _ htail rs hrs g0 hg0 hs0 (by omega)
+    (((pieces g0 rs).foldr (fun p x => p.1 x) (endsecG gT wT (cs sp) (cs tail))).length + 1) 0 [] (by omega)
+  exact ⟨offs, by simpa using h1, h2⟩
+
 /-! ### the covered scalar tokens of the eager grammar are `LazyTok`s -/
 
 set_option maxRecDepth 100000 in
